@@ -49,6 +49,14 @@ inductive CExpr where
   -- ({ name(exts…, args…); val; }): a void sub-routine call statement, then the value `val` (any expression);
   -- `exts` are the pass-through tokens (`bundle`, `HEX_REG_FIELD_USR_OVF`), `args` the value arguments
   | seqexpr (name : String) (exts : List String) (args : List CExpr) (params : List CT) (val : CExpr)
+  -- name(exts…, args…) used as a value: a registered sub-routine (or the built-in `get_npc`) with pass-through
+  -- arguments in front of its value arguments (`get_usr_field(bundle, HEX_REG_FIELD_USR_LPCFG)`, `get_npc(pkt)`,
+  -- `fcirc_add(bundle, RxV, …)`); a pass-through token that names a register operand is kept as the operand
+  -- variable the code prints for it (`Rx_op`): the operand is handed over BY REFERENCE
+  | callx (name : String) (exts : List String) (args : List CExpr) (ret : CT) (params : List CT)
+  -- name(exts…): a plugin macro all of whose arguments are pass-through tokens (`get_corresponding_CS(pkt, MuV)`);
+  -- a pure leaf
+  | xmacro (name : String) (exts : List String) (ret : CT)
 deriving Repr, Inhabited
 
 inductive CStmt where
@@ -112,6 +120,12 @@ def CExpr.ofSexp : Sexp → Option CExpr
       let exts ← strsOfSexps exts; let args ← CExpr.ofSexps args; let ps ← params.mapM ctOfSexp
       let v ← CExpr.ofSexp v
       pure (.seqexpr n exts args ps v)
+  | .list [.atom "callx", .str n, .list exts, .list args, ret, .list params] => do
+      let exts ← strsOfSexps exts; let args ← CExpr.ofSexps args; let ret ← ctOfSexp ret; let ps ← params.mapM ctOfSexp
+      pure (.callx n exts args ret ps)
+  | .list [.atom "xmacro", .str n, .list exts, ret] => do
+      let exts ← strsOfSexps exts; let ret ← ctOfSexp ret
+      pure (.xmacro n exts ret)
   | _ => none
 def CExpr.ofSexps : List Sexp → Option (List CExpr)
   | [] => some []
